@@ -42,6 +42,8 @@ func unhex(s string) string {
 
 func errClass(msg string) string {
 	switch {
+	case strings.Contains(msg, "missing '[' after '%f'"):
+		return "missing_bracket"
 	case strings.Contains(msg, "malformed pattern"):
 		return "malformed"
 	case strings.Contains(msg, "unfinished capture"):
